@@ -270,7 +270,8 @@ class ReaderToSearcher(object):
                 got = 'not-found'
             except Exception as exc:
                 got = 'foreign:%s' % type(exc).__name__
-            want = 'not-modified' if int(dt) >= int(st) else 'not-found'
+            # 'not older than the source's': the times as the file system keeps them, not cut to whole seconds
+            want = 'not-modified' if os.stat(dp).st_mtime >= os.stat(sp).st_mtime else 'not-found'
             vs = []
             if got != want:
                 vs.append(('C10|reader-to-searcher|%s|answered-%s-where-%s|%s' % (
